@@ -25,7 +25,7 @@ import sys
 import time
 import traceback
 
-ROOT = "/verif"
+ROOT = os.environ.get("VERIF_ROOT") or os.path.dirname(os.path.dirname(os.path.abspath(__file__)))
 REPO = "/repo"
 NPROC = int(os.environ.get("VERIF_NPROC", "16"))
 
